@@ -309,7 +309,7 @@ Theorem outer_shape_and_entries :
   length (outer o x y) = (length x * length y)%nat
   /\ forall d i j, (i < length x)%nat -> (j < length y)%nat ->
        nth (i * length y + j) (outer o x y) d = bop_ev o (nth i x d) (nth j y d).
-Proof. intros T NT o x y. split; [exact (outer_length o x y) | intros; apply outer_nth; assumption]. Qed.
+Proof. exact @outer_shape_entries. Qed.
 Print Assumptions outer_shape_and_entries.
 
 Theorem reduceat_one_row_per_index :
@@ -342,7 +342,7 @@ Theorem at_frame :
   forall (T : Type) (NT : Num T) (o : bop) (a : list T) (ivs : list (nat * T)),
   length (at2 o a ivs) = length a
   /\ forall j d, ~ In j (map fst ivs) -> nth j (at2 o a ivs) d = nth j a d.
-Proof. intros T NT o a ivs. split; [exact (at2_length o a ivs) | intros; apply at2_frame; assumption]. Qed.
+Proof. exact @at2_length_frame. Qed.
 Theorem at_equals_fancy_when_distinct :
   forall (T : Type) (NT : Num T) (o : bop) (a : list T) (ivs : list (nat * T)),
   NoDup (map fst ivs) -> Forall (fun iv => (fst iv < length a)%nat) ivs ->
